@@ -503,6 +503,7 @@ def c08(ctx):
             if len(b.store) > ctx.buf_cfg[b.id].capacity:
                 yield F("initial-over-capacity", f"{b.id} holds {len(b.store)} > {ctx.buf_cfg[b.id].capacity}", 0)
                 return
+    appended_at = {}  # (buffer id, job id) -> (step index, time) of the insertion
     for (si, rec, tr, pre, post, upd, vals) in ctx.events:
         pb = {b.id: b for b in ctx.all_buffers(pre)}
         for b in ctx.all_buffers(post):
@@ -517,6 +518,7 @@ def c08(ctx):
                 if b.store[:-1] != a:
                     yield F("insertion-not-at-back", f"{b.id}: {a} -> {b.store}", si)
                     return
+                appended_at[(b.id, b.store[-1])] = (si, tt(pre.time))
             elif len(b.store) == len(a) - 1:
                 idx = next((i for i in range(len(a)) if a[:i] + a[i + 1:] == b.store), None)
                 if idx is None:
@@ -527,7 +529,12 @@ def c08(ctx):
                         yield F("fifo-released-not-oldest", f"{b.id}: {a} released index {idx} by {tr}", si)
                         return
                     if c.type == BufferTypeConfig.LIFO and idx != len(a) - 1:
-                        yield F("lifo-released-not-newest", f"{b.id}: {a} released index {idx} by {tr}", si)
+                        # was the burying job appended in this very step at this very instant, i.e. after
+                        # the (then correct) pickup transition had already been created?
+                        newer = [appended_at.get((b.id, x)) for x in a[idx + 1:]]
+                        same = all(n is not None and n == (si, tt(pre.time)) for n in newer)
+                        yield F("lifo-released-not-newest" + (":buried-in-the-same-instant" if same else ""),
+                                f"{b.id}: {a} released index {idx} by {tr}", si)
                         return
                     if c.type == BufferTypeConfig.DUMMY and idx != 0:
                         yield F("dummy-released-not-front", f"{b.id}: {a} released index {idx} by {tr}", si)
